@@ -22,6 +22,7 @@ groups = [
     ("nopanic (deserialize entry points)", lambda h: h["module"] == "nopanic"),
     ("nopanic (scalar_mul: NAF, MSM)", lambda h: h["module"] == "scalarmul"),
     ("zeroize", lambda h: h["module"] == "zeroize_h"),
+    ("errors", lambda h: h["module"] == "errors"),
 ]
 for title, pred in groups:
     print(f"\n### {title}\n")
